@@ -285,7 +285,11 @@ def write_evidence(prop, tier, seed, mod, res, wall, verdict, extra=None):
         schema_path = "/root/.vp/EVIDENCE.schema.json"
         if os.path.exists(schema_path):
             with open(schema_path) as f:
-                jsonschema.validate(ev, json.load(f))
+                try:
+                    jsonschema.validate(ev, json.load(f))
+                except jsonschema.ValidationError as e:
+                    # happens when a run observed (almost) nothing; the verdict below will be inconclusive
+                    print("EVIDENCE-NOT-VALID: %s" % str(e).splitlines()[0])
     except ImportError:
         pass
     return path
